@@ -64,6 +64,12 @@ def real_tree(d):
         return ("x", ("$" if d.get("IsSingleton") else "") + d["Ident"])
     if k == "IntLiteralExpression":
         return ("int", str(d["Value"]))
+    if k == "FloatLiteralExpression":
+        return ("float", str(d["Value"]))
+    if k == "StringLiteralExpression":
+        return ("str", d["Value"])
+    if k == "BoolLiteralExpression":
+        return ("bool", d["Value"])
     if k == "PrefixExpression":
         return ("pre", d["Operator"], real_tree(d["Base"]))
     if k == "InfixExpression":
@@ -195,6 +201,17 @@ def run(args):
         # parentheses around operands that are already single nodes
         ptoks = item_tokens(items, operand=lambda k: ["(", "x%d" % k, ")"])
         add({"family": fam, "layout": "paren-atoms", "ops": ops}, wrap(layout(ptoks, "space")), exp, bad)
+        # literal operands instead of identifiers (a literal is a single node like an identifier);
+        # an assignment to a literal is not a place any more
+        if fam in ("single", "deco", "pairs"):
+            for style, (tok, leaf) in ATOMS.items():
+                if fam == "deco" and not thorough and style != ("int", "float", "str", "bool")[C.seed() % 4]:
+                    continue
+                ltoks = item_tokens(items, operand=lambda k: [tok(k)])
+                lexp = subst_leaves(exp, lambda name: leaf(int(name[1:])))
+                lay = "tight" if style == "int" else "space"
+                add({"family": fam, "layout": "atoms-" + style + "-" + lay, "ops": ops}, wrap(layout(ltoks, lay)), lexp,
+                    bad or _has_bad_lhs(lexp))
 
     # compositions: sub-expressions in parentheses, lists and call arguments with trailing commas
     pool_cases = [c for c in cases if c[0] in ("pairs", "triples") and not c[3]]
@@ -264,6 +281,33 @@ def run(args):
     rep.notes["exhaustive_scope"] = ("all operator pairs; triples over %s; decorations as in HmsExpr.InitInput" %
                                      ("all 32 operators" if thorough else "13 level representatives + 3 seeded"))
     return rep.finish()
+
+
+ATOMS = {
+    "int": (lambda k: str(k + 1), lambda k: ("int", str(k + 1))),
+    "float": (lambda k: "%d.5" % k, lambda k: ("float", "%d.5" % k)),
+    "str": (lambda k: '"s%d"' % k, lambda k: ("str", "s%d" % k)),
+    "bool": (lambda k: "true" if k % 2 else "false", lambda k: ("bool", bool(k % 2))),
+}
+
+
+def subst_leaves(t, f):
+    """replace operand leaves ("x", name) of an expected tree (not index / member / type names)"""
+    if t[0] == "x":
+        return f(t[1])
+    if t[0] == "pre":
+        return ("pre", t[1], subst_leaves(t[2], f))
+    if t[0] in ("bin", "asg"):
+        return (t[0], t[1], subst_leaves(t[2], f), subst_leaves(t[3], f))
+    if t[0] == "cast":
+        return ("cast", subst_leaves(t[1], f), t[2])
+    if t[0] == "call":
+        return ("call", subst_leaves(t[1], f), t[2])
+    if t[0] == "idx":
+        return ("idx", subst_leaves(t[1], f), t[2])
+    if t[0] == "mem":
+        return ("mem", subst_leaves(t[1], f), t[2])
+    return t
 
 
 def _has_bad_lhs(t):
